@@ -195,3 +195,156 @@ def engine_section(tier, seed, classic=False):
                      'for exact equality with the Lean model; non-trivial = documents whose rendered text differs between configurations'
                      % max_size)
     return stats, mism
+
+
+# ---------------------------------------------------------------------------------------------
+# oracles evaluated on the implementation itself (C05, C06)
+
+import sys as _sys
+from prettyprinter.sdoctypes import SLine as _SLine
+
+
+def group_decisions(pydoc, w, frac, smart):
+    """Run best_layout with a recording fitting predicate: returns (emitted sdocs, [(position, indent, fits)])."""
+    L = _sys.modules['prettyprinter.layout']
+    pred = L.smart_fitting_predicate if smart else L.fast_fitting_predicate
+    emitted, decisions = [], []
+
+    def rec(**kw):
+        indent = kw['triplestack'][-1][0]
+        res = pred(**kw)
+        decisions.append((len(emitted), indent, bool(res)))
+        return res
+    for s in L.best_layout(pydoc, w, float(frac), fitting_predicate=rec):
+        emitted.append(s)
+    return emitted, decisions
+
+
+def flat_overflow(pydoc, w, frac, rw, smart):
+    """C05 oracle: for each group laid out flat, the output line its text starts on must end within the page width and
+    within indent + ribbon.  Returns a description of the first overflow or None."""
+    emitted, decisions = group_decisions(pydoc, w, frac, smart)
+    # line extents: for each position, (start index of its line, end column of its line)
+    for (pos, indent, fit) in decisions:
+        if not fit:
+            continue
+        # column at the start of the line containing pos
+        j = pos - 1
+        col = 0
+        start_col = 0
+        while j >= 0:
+            s = emitted[j]
+            if isinstance(s, _SLine):
+                start_col = s.indent
+                break
+            j -= 1
+        col = start_col
+        k = j + 1
+        while k < len(emitted) and not isinstance(emitted[k], _SLine):
+            if isinstance(emitted[k], str):
+                col += len(emitted[k])
+            k += 1
+        if col > w or col > indent + rw:
+            return {'position': pos, 'group_indent': indent, 'line_end_col': col, 'width': w, 'ribbon_width': rw}
+    return None
+
+
+def one_line_stable(pydoc, smart):
+    """C06 oracle (engine level): if the layout at a huge width is a single line of L columns, it must be the same
+    single line at every width and ribbon >= L."""
+    L = _sys.modules['prettyprinter.layout']
+    fn = L.layout_smart if smart else L.layout_fast
+    big = list(fn(pydoc, width=400, ribbon_frac=1.0))
+    if any(isinstance(s, _SLine) for s in big):
+        return None
+    length = sum(len(s) for s in big if isinstance(s, str))
+    if length >= 390:
+        return None
+    ref = default_render_to_str(list(big))
+    for w in (length, length + 1, length + 7):
+        if w < 1:
+            continue
+        out = default_render_to_str(fn(pydoc, width=w, ribbon_frac=1.0))
+        if out != ref:
+            return {'one_line': ref, 'L': length, 'width': w, 'got': out}
+    return None
+
+
+def _has_negative_nest(d):
+    k = d[0]
+    if k in ('nest', 'hang'):
+        return d[1] < 0 or _has_negative_nest(d[2])
+    if k in ('cat', 'fill'):
+        return any(_has_negative_nest(x) for x in d[1])
+    if k in ('group', 'ab', 'align'):
+        return _has_negative_nest(d[1])
+    if k == 'ann':
+        return _has_negative_nest(d[2])
+    if k == 'choice':
+        return _has_negative_nest(d[1]) or _has_negative_nest(d[2])
+    return False
+
+
+def oracle_chunk(args):
+    docs, cfgs, which = args
+    fails = []
+    n = 0
+    nt = 0
+    for d in docs:
+        try:
+            py = to_py_shared(d, {})
+        except Exception:
+            continue
+        if which == 'C05':
+            any_flat = False
+            for (w, fr, rw, smart) in cfgs:
+                n += 1
+                try:
+                    r = flat_overflow(py, w, fr, rw, smart)
+                except Exception as e:
+                    r = {'raises': type(e).__name__}
+                if r is not None:
+                    fails.append({'kind': 'engine-flat-overflow', 'doc': d, 'w': w, 'frac': str(fr), 'rw': rw, 'smart': smart, 'detail': r})
+                    break
+            nt += 1
+        else:
+            if _has_negative_nest(d):
+                # with a negative indentation the ribbon (measured from the indentation) is narrower than ribbon_width:
+                # the one-line claim of C06 is about non-negative indentation (what the printers produce)
+                continue
+            for smart in (1, 0):
+                n += 1
+                try:
+                    r = one_line_stable(py, smart)
+                except Exception as e:
+                    r = {'raises': type(e).__name__}
+                if r is not None:
+                    fails.append({'kind': 'engine-one-line-unstable', 'doc': d, 'smart': smart, 'detail': r})
+                    break
+            nt += 1
+    return n, nt, fails
+
+
+def oracle_section(tier, seed, which):
+    """Evaluate the C05 / C06 oracle on the implementation over classic documents."""
+    rng = random.Random(seed * 104729 + 17)
+    max_size = 4 if tier == 'quick' else 5
+    by = DOCS.enum_docs(max_size, classic=True)
+    small = [d for n in sorted(by) for d in by[n]]
+    n_rand = 2000 if tier == 'quick' else 30000
+    rdocs = [DOCS.rand_doc(rng, rng.choice([6, 10, 20, 40]), classic=True) for _ in range(n_rand)]
+    cfgs, _ = make_configs([1, 2, 3, 4, 5, 6, 8, 10, 12, 16, 20, 30], [Fraction(1, 2), Fraction(9, 10), Fraction(1, 1)])
+    alld = small + rdocs
+    chunks = [(alld[i:i + 100], cfgs, which) for i in range(0, len(alld), 100)]
+    tot = nt = 0
+    fails = []
+    with mp.Pool(min(NCPU, max(1, len(chunks)))) as pool:
+        for n, t, f in pool.imap_unordered(oracle_chunk, chunks):
+            tot += n
+            nt += t
+            fails.extend(f)
+    stats = {'evaluations': tot, 'distinct_nontrivial': nt, 'oracle': which, 'classic_docs': len(alld),
+             'failures': len(fails),
+             'samples': [{'doc': to_sx(alld[len(alld) // 2])[:300]}],
+             'rule': 'oracle %s evaluated on the implementation for every classic document <= %d nodes and %d random ones' % (which, max_size, n_rand)}
+    return stats, fails
